@@ -12,7 +12,8 @@ corr   (model vs implementation)
                       implementation meaning read off expand_macros(fill_in_let(c, overrides)) (every qubit through
                       .resolve_qubit(), same-kind non-subcircuit nested blocks spliced), on programs both accept
 oracle (the properties on the real code alone, no Lean involved)
-  C04_no_calls, C04_header, C04_shape, C04_idempotent, C04_arity, C04_meaning_ref (a reference interpreter written here,
+  C04_total_class, C09_total_class (every rejection is a JaqalError), C04_no_calls, C04_header, C04_shape,
+  C04_idempotent, C04_arity, C04_meaning_ref (a reference interpreter written here,
   call-by-value on the unexpanded circuit, vs the expanded circuit), C09_spell (expand_subcircuits == the tree map
   `spell`), C09_none_left, C09_flat, C09_header, C09_idempotent
 
@@ -698,6 +699,9 @@ def oracles(case, res, out):
             o["failures"].append({"case": case, "detail": detail})
 
     em = res["em"]
+    # every rejection is a JaqalError (no TypeError / AttributeError / RecursionError escapes)
+    rec("C04_total_class", "ok" in em or em["err"] == "JaqalError", f"got {json.dumps(em)[:200]}")
+    rec("C09_total_class", "ok" in res["es"] or res["es"]["err"] == "JaqalError", f"got {json.dumps(res['es'])[:200]}")
     if "ok" in em:
         d1 = em["ok"]
         names = gate_names(d1["body"], [])
